@@ -34,8 +34,13 @@ class Ctx:
         self.run, self.scen = run, scen
         self.records = run.records
         comp = getattr(run, "compiler", None)
-        self.instance = run.instance
-        self.init_state = run.init_state
+        # episode monitors only look at runs whose environment came up; the compile-level monitors
+        # (C16/C17) use `compiled_instance`, which is also there when reset failed or the document
+        # lies outside the state model
+        self.compiled_instance = run.instance
+        self.compiled_init_state = run.init_state
+        self.instance = run.instance if run.env is not None else None
+        self.init_state = run.init_state if run.env is not None else None
         self.init_vals = dict(run.init_vals)
         if self.instance is None and comp is not None and getattr(comp, "last", None) and run.compile_error is None \
                 and getattr(comp, "header", None) is not None:
